@@ -351,6 +351,16 @@ var errBranchExceptions = map[string]string{
 
 // checkGenericErrorDiscipline runs the two generic error rules over the packages a property is anchored in.
 func checkGenericErrorDiscipline(c *Ctx, pkgs ...string) {
+	// the generic rules scan whole packages; under a property only the constructs in functions its operations can
+	// reach are kept (see reach.go), so that a defect in unrelated code of the same package is left to the properties
+	// whose operations execute it
+	if c.sharedReach == nil {
+		if entries := propertyEntries[c.Prop]; len(entries) > 0 {
+			c.sharedReach = c.P.reach(entries)
+			c.reachOnly = true
+			defer func() { c.sharedReach, c.reachOnly = nil, false }()
+		}
+	}
 	n1 := checkValuesGuardedByErr(c, "errors-surface.value-guarded-by-error", nil, pkgs...)
 	n2 := checkErrBranchFails(c, "errors-surface.error-branch-fails", errBranchExceptions, pkgs...)
 	checkErrDisciplineAll(c, "errors-surface.every-error-tested", pkgs...)
